@@ -110,10 +110,17 @@ Print Assumptions C07_uncomputable_no_inherited.
    of the same expressions (an assigned name denotes its value).
    ================================================================================================ *)
 
-(* Resolution always returns: alias chains and cycles, dangling targets, any heap, any expression. *)
+(* Resolution always returns: alias chains and cycles, dangling targets, any heap, any expression -- the walk through
+   aliases (either reading) ... *)
 Theorem C07_resolve_total : forall follow h scope e, resolve_base follow h scope e <> RFuel.
 Proof. exact resolve_base_total. Qed.
 Print Assumptions C07_resolve_total.
+
+(* ... and Class.resolved_bases as a whole, with its loop following assigned names (fix 3a123f9): assignment cycles
+   (A = B; B = A) are dropped, not looped on. *)
+Theorem C07_resolved_bases_total : forall subs h scope e, gresolve_s subs h scope e <> RFuel.
+Proof. exact gresolve_total. Qed.
+Print Assumptions C07_resolved_bases_total.
 
 (* `A[int]`, `Generic[T]`: a subscripted base resolves as its left part. *)
 Theorem C07_resolve_subscript_transparent : forall follow h scope e,
@@ -122,44 +129,58 @@ Proof. exact resolve_subscript. Qed.
 Print Assumptions C07_resolve_subscript_transparent.
 
 (* What resolved_bases holds is an object of the collection, never an alias (final_target went all the way). *)
-Theorem C07_resolve_result_is_object : forall follow h scope e q k, resolve_base follow h scope e = Found q k ->
+Theorem C07_resolve_result_is_object : forall subs h scope e q k, gresolve_s subs h scope e = Found q k ->
   find_obj h q = Some k /\ (forall t, k <> KAlias t).
-Proof. exact resolve_base_found. Qed.
+Proof. exact gresolve_found. Qed.
 Print Assumptions C07_resolve_result_is_object.
 
-(* Soundness: whatever Griffe resolves a base to -- unless it stops at an assigned name -- is what the expression
-   denotes in Python, through any chain of import aliases, re-exports, module aliases and holder classes. *)
+(* Soundness of the walk: whatever get_member + final_target reach -- unless it is an assigned name -- is what the
+   expression denotes in Python (nested evaluation), through any chain of import aliases, re-exports, module aliases
+   and holder classes; and resolved_bases returns exactly that. *)
 Theorem C07_resolved_base_sound : forall h scope e q k, attr_leaf h ->
-  resolve_base false h scope e = Found q k -> not_attr k -> resolve_base true h scope e = Found q k.
-Proof. exact resolve_base_sound. Qed.
+  resolve_base false h scope e = Found q k -> not_attr k ->
+  gresolve h scope e = Found q k /\ resolve_base true h scope e = Found q k.
+Proof. exact gresolve_sound_direct. Qed.
 Print Assumptions C07_resolved_base_sound.
 
-(* resolved_bases + is_class filter, any list of bases: Griffe's bases are a subsequence of Python's (same order,
-   nothing invented) ... *)
-Theorem C07_resolved_bases_subseq : forall h scope es bs, attr_leaf h -> map_opt (pbase h scope) es = Some bs ->
+(* resolved_bases + is_class filter, any list of bases, against the reading in which every assigned name denotes its
+   value: Griffe's bases are a subsequence (same order, nothing invented) ... *)
+Theorem C07_resolved_bases_subseq : forall h scope es bs, map_opt (p1base h scope) es = Some bs ->
   Subseq (gbases h scope es) bs.
 Proof. exact gbases_subseq. Qed.
 Print Assumptions C07_resolved_bases_subseq.
 
-(* ... and exactly Python's bases when every base expression resolves to a class. *)
-Theorem C07_resolved_bases_complete : forall h scope es, attr_leaf h -> forallb (kept h scope) es = true ->
-  map_opt (pbase h scope) es = Some (gbases h scope es).
+(* ... and exactly those bases when every base expression resolves to a class. *)
+Theorem C07_resolved_bases_complete : forall h scope es, forallb (kept h scope) es = true ->
+  map_opt (p1base h scope) es = Some (gbases h scope es).
 Proof. exact gbases_complete. Qed.
 Print Assumptions C07_resolved_bases_complete.
 
-(* Finding C07-F2: `Base = K1; class C(Base)` -- the base is dropped. *)
-Theorem C07_resolve_assign_refuted : exists h scope e, attr_leaf h /\
-  gbases h scope [e] = [] /\ pbases h scope [e] = Some [0] /\ stops_at_attr h scope e = true.
-Proof. exact resolve_assign_refuted. Qed.
-Print Assumptions C07_resolve_assign_refuted.
+(* When no base goes through an assignment, they are Python's bases (full nested reading). *)
+Theorem C07_resolved_bases_alias_only : forall h scope es, attr_leaf h ->
+  forallb (fun e => match resolve_base false h scope e with Found _ (KCls _) => true | _ => false end) es = true ->
+  map_opt (pbase h scope) es = Some (gbases h scope es).
+Proof. exact gbases_alias_only. Qed.
+Print Assumptions C07_resolved_bases_alias_only.
 
-(* Modulo that gap the two readings of one collection agree on every base Griffe finds at all. *)
-Theorem C07_resolve_complete_modulo_assign : forall h scope e i, attr_leaf h ->
-  pbase h scope e = Some i -> stops_at_attr h scope e = false ->
-  (exists q k, resolve_base false h scope e = Found q k) ->
-  exists q, resolve_base false h scope e = Found q (KCls i).
-Proof. exact resolve_complete_modulo_assign. Qed.
+(* Was finding C07-F2, repaired by 3a123f9.  The loop agrees with "every assigned name denotes its value" on every
+   heap and every base, UNLESS its answer is an attribute -- i.e. unless it stopped at a subscripted value. *)
+Theorem C07_resolve_complete_modulo_assign : forall h scope e,
+  (forall q v, gresolve h scope e <> Found q (KAttr v)) -> gresolve_s true h scope e = gresolve h scope e.
+Proof. exact gresolve_agree. Qed.
 Print Assumptions C07_resolve_complete_modulo_assign.
+
+(* What remains (finding C07-F2, narrowed): (a) `IntG = G[int]; class D(IntG)` -- subscripted value not followed;
+   (b) `ns = H; class E(ns.Inner)` -- an assigned name in the middle of an attribute chain; (c) `Base = K1;
+   class C(Base); Base = K2` -- the collection keeps the last binding (Griffe: K2, CPython: K1). *)
+Theorem C07_resolve_assign_narrowed_refuted :
+  (gbases sub_heap ["m"] [BName "IntG"] = [] /\ pbases sub_heap ["m"] [BName "IntG"] = Some [0] /\
+   stops_at_attr sub_heap ["m"] (BName "IntG") = true) /\
+  (gbases mid_heap ["m"] [BAttr (BName "ns") "Inner"] = [] /\ pbases mid_heap ["m"] [BAttr (BName "ns") "Inner"] = Some [0]) /\
+  (cbases (nth_cls (gtbl rebind_prog) 2) = [1] /\ cbases (nth_cls (ptbl rebind_prog) 2) = [0] /\
+   misresolved rebind_prog (mkX ["m"; "C"] ["m"] [BName "Base"] [] []) (BName "Base") = true).
+Proof. exact resolve_assign_narrowed_refuted. Qed.
+Print Assumptions C07_resolve_assign_narrowed_refuted.
 
 (* ================================================================================================
    Bases the collection does not hold (typing.Generic, object, unloaded packages) are dropped before the merge.
